@@ -460,6 +460,19 @@ def _install(inv: Dict[str, Any]) -> None:
     main.datetime = _DateTime
 
 
+def write_sideload(work: str, sideload: Any) -> str:
+    """ writes one sideload document, or several (a list) to sideload.json, sideload_2.json, ...; returns the
+        value for --sideload (comma separated paths) """
+    documents = sideload if isinstance(sideload, list) else [sideload]
+    paths = []
+    for index, document in enumerate(documents):
+        path = os.path.join(work, "sideload.json" if not index else f"sideload_{index + 1}.json")
+        with open(path, "w", encoding="utf-8") as handle:
+            json.dump(document, handle)
+        paths.append(path)
+    return ",".join(paths)
+
+
 def base_args(outdir: str, cpus: int = 1) -> List[str]:
     return ["--minimal", "--enable-tta", "--databases", database_dir(), "--output-dir", outdir,
             "--cpus", str(cpus), "--genefinding-tool", "none", "--logfile", os.path.join(outdir, "..", "log.txt")]
